@@ -357,11 +357,37 @@ func ruleNoSwallowedErrors(r *Run, id string, floor int, dropped bool, pkgs ...s
 					r.Check(fmt.Sprintf("%s errtest#%d of %s", name, j, calleeShort(c)), !empty, posOf(p, ifs), name, "the branch taken when "+calleeShort(c)+" failed is empty: execution continues as if the call had succeeded")
 					// wrong variable: the failure edge returns an error value that an earlier test already proved nil
 					// (`if uerr := f(); uerr != nil { return err }` after `if err != nil { return err }`)
-					if fe != nil {
+					// (not decided for functions that return through named results after a defer: go/ssa re-loads the result
+					// variables behind rundefers and in the recover block, the identity of the returned value is lost)
+					if fe != nil && !(fn.Recover != nil && fn.Signature.Results().Len() > 0 && fn.Signature.Results().At(0).Name() != "") {
 						if ret := firstReturnFrom(fe); ret != nil {
 							rs := retResults(ret)
 							if len(rs) > 0 {
 								last := rs[len(rs)-1]
+								// a named result (or a variable) re-loaded for the return: what was last stored into it on this
+								// edge is what is returned (functions with defers return through their result variables)
+								for round := 0; round < 4; round++ {
+									ld, isLd := last.(*ssa.UnOp)
+									if !isLd || ld.Op != token.MUL {
+										break
+									}
+									a, isA := ld.X.(*ssa.Alloc)
+									if !isA || a.Referrers() == nil {
+										break
+									}
+									var lastStore *ssa.Store
+									for _, ref := range *a.Referrers() {
+										if st, isSt := ref.(*ssa.Store); isSt && st.Addr == ssa.Value(a) && dominatesInstr(st, ld) {
+											if lastStore == nil || dominatesInstr(lastStore, st) {
+												lastStore = st
+											}
+										}
+									}
+									if lastStore == nil {
+										break
+									}
+									last = lastStore.Val
+								}
 								if last != ev && !sameValue(last, ev) && !isNilConst(last) {
 									provenNil := false
 									for _, t2 := range nilTestsOf(fn, last) {
